@@ -9,7 +9,7 @@
     - [load_assoc]: the node of an expression is determined by the [Add]s of that
       expression alone, hence [load_order_independent]. *)
 From HV Require Import Base.Prelude Radix.Spec Radix.SpecProofs Radix.Machine Radix.MachineProofs Radix.Load.
-From Coq Require Import Permutation.
+From Coq Require Import Permutation Sorted.
 
 (** ** small facts *)
 
@@ -393,3 +393,104 @@ Proof.
 Qed.
 
 End LoadFacts.
+
+(** ** the flag of an expression as the property states it (finding C02-F2) *)
+
+Section SpecFlagFacts.
+Variable V : Type.
+Variable vflag : V -> bool.
+Notation node := (node V).
+Notation db := (db V).
+Notation matcher := (matcher V).
+Variable m : matcher.
+
+Lemma respec_fst (d : db) : map fst (respec vflag d) = map fst d.
+Proof. unfold respec. rewrite map_map. reflexivity. Qed.
+
+Lemma respec_filter (f : pat -> bool) (d : db) :
+  filter (fun e => f (fst e)) (respec vflag d) = respec vflag (filter (fun e => f (fst e)) d).
+Proof.
+  induction d as [|[p n] d IH]; [reflexivity|]. cbn [respec map filter fst]. fold (respec vflag d).
+  destruct (f p); cbn [respec map]; rewrite IH; reflexivity.
+Qed.
+
+Lemma respec_insert (e : pat * node) (l : db) :
+  insert_e (fst e, respec_node vflag (snd e)) (respec vflag l) = respec vflag (insert_e e l).
+Proof.
+  induction l as [|x r IH]; [reflexivity|]. cbn [respec map insert_e fst]. fold (respec vflag r).
+  destruct (more_specific (fst x) (fst e)); cbn [respec map]; [rewrite IH|]; reflexivity.
+Qed.
+
+Lemma respec_sort (l : db) : sort_e (respec vflag l) = respec vflag (sort_e l).
+Proof.
+  induction l as [|x r IH]; [reflexivity|]. cbn [respec map sort_e fold_right]. fold (respec vflag r).
+  fold (sort_e (respec vflag r)). fold (sort_e r). rewrite IH. destruct x as [p n]. apply (respec_insert (p, n)).
+Qed.
+
+(** outside the guard the flags in force and the flags the property states give the same scan *)
+Lemma scan_respec path (l : db) :
+  (forall e, In e l -> matchesb (fst e) path = true) ->
+  (forall e, In e l -> guard_F2_entry vflag m path e = false) ->
+  scan m path l = scan m path (respec vflag l).
+Proof.
+  induction l as [|[p n] r IH]; intros Hm Hg; [reflexivity|]. cbn [respec map scan fst snd respec_node vals keys flag].
+  fold (respec vflag r).
+  assert (IH' : scan m path r = scan m path (respec vflag r)).
+  { apply IH; intros e He; [apply Hm | apply Hg]; right; exact He. }
+  destruct (vals n) eqn:Ev; [exact IH'|]. rewrite <- Ev.
+  destruct (find _ (vals n)) eqn:Ef; [reflexivity|].
+  specialize (Hg (p, n) (or_introl eq_refl)). specialize (Hm (p, n) (or_introl eq_refl)).
+  unfold guard_F2_entry, fails_at in Hg. cbn [fst snd] in *. unfold matchesb in Hm.
+  destruct (match_pat p path) as [caps|]; [|discriminate].
+  apply find_none_forallb in Ef. rewrite Ef in Hg. cbn [andb] in Hg.
+  apply negb_false_iff in Hg. apply Bool.eqb_prop in Hg. rewrite <- Hg. rewrite IH'. reflexivity.
+Qed.
+
+Theorem spec_lookup_respec (d : db) path :
+  guard_F2 vflag d path m = false -> spec_lookup d path m = spec_lookup (respec vflag d) path m.
+Proof.
+  intro Hg. unfold spec_lookup.
+  rewrite (respec_filter (fun p => matchesb p path) d), respec_sort.
+  apply scan_respec.
+  - intros e He. eapply Permutation_in in He; [|apply sort_e_perm]. apply filter_In in He as [_ He]. exact He.
+  - intros e He. eapply Permutation_in in He; [|apply sort_e_perm]. apply filter_In in He as [He _].
+    unfold guard_F2 in Hg. destruct (guard_F2_entry vflag m path e) eqn:E; [|reflexivity].
+    assert (existsb (guard_F2_entry vflag m path) d = true) by (apply existsb_exists; eauto). congruence.
+Qed.
+
+(** *** the flag in force is the flag of the value added last *)
+
+Variable can_add : list V -> V -> bool.
+
+Definition flag_is_last (n : node) : Prop :=
+  match last_opt (vals n) with Some v => flag n = vflag v | None => True end.
+
+Lemma last_opt_snoc (l : list V) v : last_opt (l ++ [v]) = Some v.
+Proof. unfold last_opt. rewrite rev_app_distr. reflexivity. Qed.
+
+Lemma add_flag_last (d d' : db) p ks v :
+  add can_add d p ks v (vflag v) = AOk d' ->
+  Forall (fun e => flag_is_last (snd e)) d -> Forall (fun e => flag_is_last (snd e)) d'.
+Proof.
+  revert d'. induction d as [|[q n] r IH]; intros d'; cbn [add].
+  - destruct (can_add [] v); [|discriminate]. intros H _. inversion H. constructor; [|constructor].
+    unfold flag_is_last. cbn [snd vals flag last_opt rev app]. reflexivity.
+  - intros H HF. inversion HF as [|x l Hx Hl]; subst. destruct (pat_eqb p q).
+    + destruct (merge_keys p n ks); [|discriminate]. destruct (can_add (vals n) v); [|discriminate].
+      inversion H. constructor; [|assumption]. unfold flag_is_last. cbn [snd vals flag]. rewrite last_opt_snoc. reflexivity.
+    + destruct (add can_add r p ks v (vflag v)) as [r'| |] eqn:Er; try discriminate.
+      inversion H; subst d'. constructor; [assumption|]. apply IH; [reflexivity | assumption].
+Qed.
+
+Theorem load_flag_last (l : list (addop V)) :
+  flags_from_values vflag l -> Forall (fun e => flag_is_last (snd e)) (load can_add l).
+Proof.
+  unfold load. generalize (@nil (pat * node)) (Forall_nil (fun e : pat * node => flag_is_last (snd e))).
+  induction l as [|a r IH]; intros d Hd Hf; [exact Hd|]. cbn [load_from fold_left]. apply IH.
+  - unfold step, add_expr. destruct (parse_expr (ao_expr a)) as [[p ks]|]; [|exact Hd].
+    destruct (add can_add d p ks (ao_val a) (ao_bt a)) as [d'| |] eqn:Ea; try exact Hd.
+    rewrite (Hf a (or_introl eq_refl)) in Ea. eapply add_flag_last; eassumption.
+  - intros b Hb. apply Hf. right. exact Hb.
+Qed.
+
+End SpecFlagFacts.
